@@ -159,6 +159,10 @@ def main(argv=None):
     _fk("process restart (pickle round trip, same process)", fired="restart_inproc")
     _fk("process restart (fresh interpreter, other PYTHONHASHSEED)", fired="restart_fresh")
     _fk("fresh-interpreter repetition of seeded calls", fired="fresh_process_checked")
+    _fk("reference computed in a brand-new interpreter (other hash salt, virgin global state)",
+        reference_fits="reference_fits_in_fresh_interpreter", random_matrices="random_fresh_process_checked")
+    _fk("caller passes the same argument arrays to every fit", runs="same_arrays_for_every_fit")
+    _fk("overflowing tuple inside a query batch", batches="batches_with_overflowing_tuple")
     _fk("ambient RNG / global state perturbation", fired="op_ambient")
     _fk("simulated clock jumps (forwards and backwards)", fired="clock_jumps", clock_reads="clock_reads")
     for k_ in sorted(cov):
